@@ -8,6 +8,7 @@ operations with process deaths, and every point between two file-system operatio
 -/
 import LinVerif.Lemmas.C01Reach
 import LinVerif.Lemmas.C01Cleanup
+import LinVerif.Lemmas.C01Pending
 import LinVerif.Generated.C01
 
 namespace LinVerif.Props.C01
@@ -61,6 +62,47 @@ theorem rollover_invariant (cfg : Cfg) (d : Disk) (a : Abs) (h : Consistent cfg 
     Consistent cfg (applyFsList d ((openStore cfg d).2.take k)) a := by
   obtain ⟨_, _, _, _, _, hpre, _⟩ := open_consistent cfg d a h
   exact hpre k
+
+/-- creating a manifest truncates: whatever a file of that name held before (records of an earlier,
+crashed roll-over, a partial record) is gone -/
+theorem createManifest_truncates (d : Disk) (n : Int) :
+    Map.lookup (applyFs d (.createManifest n)).manifests n = some ⟨[], false⟩ := by
+  simp [applyFs, Map.lookup_upsert_self]
+
+/-- **roll-over over a partial earlier file.** Put ANY content — complete records of a crashed
+roll-over, a partial record, a torn tail — into a manifest file that CURRENT does not name (in
+particular into the `MANIFEST-n` the next open will re-use): the disk stays consistent with the same
+committed state, the next open succeeds with that state, and so does every prefix of it. -/
+theorem rollover_over_partial_manifest (cfg : Cfg) (d : Disk) (a : Abs) (h : Consistent cfg d a)
+    (n : Int) (junk : Manifest) (hn : d.current ≠ some n) :
+    let dj : Disk := { d with manifests := Map.upsert d.manifests n junk }
+    (∃ mr, (openStore cfg dj).1 = some mr ∧ mr.info = a.info ∧ mr.vs.fams = a.fams) ∧
+    ∀ k, Consistent cfg (applyFsList dj ((openStore cfg dj).2.take k)) a := by
+  intro dj
+  have hj : Consistent cfg dj a := h.junk_manifest cfg n junk hn
+  obtain ⟨mr, hm, _, hf, hi, hpre, _⟩ := open_consistent cfg dj a hj
+  exact ⟨⟨mr, hm, hi, hf⟩, hpre⟩
+
+/-- the session numbering that makes re-use safe: in every reachable open state the manifest file in
+use has a number below the next file number, and (`Consistent.recov`) the number the NEXT open will
+create is above the number CURRENT names — an open never re-creates the live manifest, also after
+sessions without any commit. -/
+theorem next_manifest_is_not_current (cfg : Cfg) (items : List Item) (s : St)
+    (hreach : execAll cfg St.init items = some s) :
+    ∃ a, Consistent cfg s.disk a ∧
+      ∀ j, s.disk.current = some j → (recoverVS cfg s.disk).2 = true ∧ j < (recoverVS cfg s.disk).1.manifestNo := by
+  have hg := good_execAll (good_init cfg) hreach
+  obtain ⟨mem, d⟩ := s
+  have hc : ∃ a, Consistent cfg d a := by
+    cases mem with
+    | none => exact hg
+    | some m => obtain ⟨hinv, hcfg⟩ := hg; subst hcfg; exact ⟨_, hinv.cons⟩
+  obtain ⟨a, ha⟩ := hc
+  refine ⟨a, ha, ?_⟩
+  intro j hj
+  obtain ⟨vs, hrec, _, _, _, _, hcur⟩ := ha.recov
+  rw [hrec]
+  exact ⟨rfl, hcur j hj⟩
 
 /-- (a) **snapshot / replay round trip**: replay (records of snapshot s) = s, with the numbers advanced
 by the store record. -/
@@ -123,6 +165,21 @@ theorem no_partial_visible (cfg : Cfg) (items : List Item) (s s' : St) (o : Op) 
     exact ⟨t, ht.2.2, ht.2.1⟩
   · intro g t ht
     exact open_cleanup cfg dk vs hrec fo (by rw [← hmr.2]; exact hfo) v (by rw [← hmr.1]; exact hv) g t ht
+
+/-- **a table created by an unfinished writer is never deleted.** In every reachable state with the
+store open, no operation (in particular no compaction cleanup of the same family, interleaved
+between a flusher's first Add and its Commit) removes a table whose number is a pending output of the
+family owning the directory; an open flusher's table number is pending from its creation on. -/
+theorem unfinished_writer_table_never_deleted (cfg : Cfg) (items : List Item) (s s' : St) (m : Mem) (o : Op)
+    (ops : List FsOp) (hreach : execAll cfg St.init items = some s) (hm : s.mem = some m)
+    (hop : runOp cfg s o = some (s', ops)) (f : Fam) (hf : f ∈ m.fams) :
+    (∀ fl n c, f.flusher = some fl → fl.builder = some (n, c) → n ∈ f.pending) ∧
+    ∀ g, FsOp.removeTable f.opt.name g ∈ ops → g ∉ f.pending := by
+  have hg := good_execAll (good_init cfg) hreach
+  refine ⟨?_, fun g hrm => pending_never_removed hg hm hop hrm hf rfl⟩
+  simp only [Good, hm] at hg
+  intro fl n c hfl hb
+  exact hg.1.builder f hf fl hfl n c hb
 
 /-! ## 3. file numbers handed out after recovery are fresh -/
 
@@ -242,6 +299,17 @@ example : (execAll exCfg St.init exHistory).isSome = true := by decide
 /-- after that history the family has one file at level 1 holding key 2, nothing from the flush that died -/
 example : ((execAll exCfg St.init exHistory).bind (fun s => s.mem)).map
     (fun m => m.vs.fams.map (fun f => f.ver.files.map (fun e => (e.1.1, e.1.2)))) = some [[(1, 3)]] := by decide
+
+/-- a flusher holding an uncommitted table while a compaction of the same family merges and cleans up,
+then committing; an idle session; an open that dies inside the snapshot, re-opened twice -/
+def exHistory2 : List Item :=
+  [.run .openS, .run (.createFamily 10 2), .run (.flushStart 10 [(1, 1)] []), .run (.flushCommit 10 30),
+   .run (.flushStart 10 [(1, 2), (5, 5)] []), .run (.flushCommit 10 30),
+   .run (.flushStart 10 [(2, 7)] [(1, 9)]), .run (.compact 10 33), .run (.flushCommit 10 30),
+   .run .close, .run .openS, .run .close, .die .openS 3, .run .openS, .run .close, .run .openS]
+
+example : ((execAll exCfg St.init exHistory2).bind (fun s => s.mem)).map
+    (fun m => m.vs.fams.map (fun f => f.ver.files.map (fun e => (e.1.1, e.1.2)))) = some [[(1, 7), (0, 6)]] := by decide
 
 /-! ## 7. observation outside the quantifier (torn single write) — NOT a violation of C01 -/
 
